@@ -94,3 +94,16 @@ Section ExporterAsCoded.
   Definition export_as_coded (is_client : bool) (v : view) (secret label : list N) (n : nat) : option (list N) :=
     if known_suite (w_suite v) then Some (export prf hash_of_suite is_client v secret label n) else None.
 End ExporterAsCoded.
+
+(* ---- the name of the session (State.SessionID, the key of the session stores) on a full DTLS 1.2 handshake.
+   [generated] = the id the server drew before the ServerHello message hook ran, [sh_id] = the id in the ServerHello
+   that LEFT the server.  The client (flight3Parse) names the session by the message.
+   THE SWITCH for F82's session-id leg (repaired in /repo by 6fdd853): [true] = commitFinalServerHello reads the id
+   back from the final message; [false] = the server kept the id it had generated. *)
+Definition server_names_session_as_final_server_hello : bool := true.
+
+Definition client_session_name (sh_id : list N) : list N := sh_id.
+Definition server_session_name_sw (from_final : bool) (generated sh_id : list N) : list N :=
+  if from_final then sh_id else generated.
+Definition server_session_name : list N -> list N -> list N :=
+  server_session_name_sw server_names_session_as_final_server_hello.
